@@ -143,7 +143,7 @@ func runC13(c *core.Ctx) {
 			u.wantFr = append(u.wantFr, o.sizeless())
 		}
 		var ps [][]byte
-		if c.Guard("codecs.AV1Payloader.Payload", func() { ps = pay.Payload(uint16(mtu), stream) }) {
+		if c.Guard("codecs.AV1Payloader.Payload", func() { ps = pay.Payload(uint16(mtu), spare(t, stream)) }) {
 			return nil
 		}
 		u.nPkts = len(ps)
